@@ -213,6 +213,7 @@ def cosim_membership(rp, tr: tracer.Tracer, rng: random.Random) -> Any:
     if not fleets:
         return rp
     pool = [sim.stations[k] for k in sorted(sim.stations.keys())] + [sim.bases[k] for k in sorted(sim.bases.keys())]
+    pool += [sim.requests[k] for k in sorted(sim.requests.keys()) if sim.requests[k].dispatched_vehicle is None][:3]   # waiting requests too
     ent = rng.choice(pool)
     new = rng.choice([(), (fleets[0],), (fleets[-1],), tuple(fleets)])
     # mostly: the destination of a vehicle that is on its way, handed to a fleet that vehicle does not belong to
